@@ -1671,7 +1671,7 @@ func init() {
 		Rule:        "the corpus is every distinct state reached by an explicit-state BFS over two-slot sketch histories (five store kinds as producer, both variants); for each member: Encode with the mapping embedded and omitted, into a nil buffer and behind a 3-byte prefix with spare capacity; each encoding is decoded into five target store kinds and compared bin for bin with the reference (folded for bounded targets); decode into a non-empty receiver is compared with MergeWith; enc(a)|enc(b)|enc(a) with the merge of the three; the producer's full observation must be identical before and after Encode; distinct_nontrivial counts distinct (contents, multisets)",
 		Assumptions: []string{"dyadic weights (they survive the documented +1/-1 transform)"},
 		Shards: func(tier string) []mc.Shard {
-			return shardsOfSketchSpecs(corpusSpecs("C06", tier, 3, 4, true, checkC06))
+			return append(shardsOfSketchSpecs(corpusSpecs("C06", tier, 3, 4, true, checkC06)), c06RoundedTotalShards(tier)...)
 		},
 		ShardBudget: budget(240*time.Second, 12*time.Minute),
 	})
